@@ -141,6 +141,37 @@ fn fmt_or_skip(env: &Env, src: &str, cfg: &Cfg) -> Result<String, Verdict> {
     }
 }
 
+/// C13, exhaustive part of the sweep: every pair (start <= end) of character boundaries of every
+/// well-formed corpus snippet of at most `max_len` bytes (plus one end past the text per start), at three
+/// widths. Returns (snippet item, number of boundaries) and the prefix sums of the pair counts.
+fn exhaustive_ranges(env: &Env) -> &'static (Vec<(usize, Vec<usize>)>, Vec<usize>) {
+    static T: std::sync::OnceLock<(Vec<(usize, Vec<usize>)>, Vec<usize>)> = std::sync::OnceLock::new();
+    T.get_or_init(|| {
+        let max_len = match env.tier {
+            Tier::Quick => 40,
+            Tier::Thorough => 160,
+        };
+        let c = env.corpus;
+        let mut snips = vec![];
+        let mut prefix = vec![0usize];
+        for &i in &c.wf_snips {
+            let t = &c.items[i].text;
+            if t.len() > max_len || t.trim().is_empty() {
+                continue;
+            }
+            // boundaries 0..=len on char boundaries, plus one position past the end
+            let mut b: Vec<usize> = (0..=t.len()).filter(|&k| t.is_char_boundary(k)).collect();
+            b.push(t.len() + 7);
+            let n = b.len();
+            prefix.push(prefix.last().unwrap() + n * (n + 1) / 2);
+            snips.push((i, b));
+        }
+        (snips, prefix)
+    })
+}
+
+const EXH_WIDTHS: [usize; 3] = [80, 12, 0];
+
 /// (width, blank_lines_upper_bound) pairs of the corpus sweep's third part
 const BLANK_SWEEP: [(usize, usize); 12] = [(0, 0), (40, 0), (80, 0), (120, 0), (0, 1), (40, 1), (80, 1), (120, 1), (0, 3), (40, 3), (80, 3), (120, 3)];
 
@@ -234,7 +265,7 @@ impl Prop for SrcProp {
             Which::C10 => "Oracle: sequence of literal tokens (Str, numbers, identifiers, labels, refs, links, escapes; Raw as block/lang/lines/fence) unchanged. Non-trivial: >= 1 multi-line or nested literal and output differs from input.",
             Which::C11 => "Oracle: output non-empty, ends in LF, no line ends in a char::is_whitespace character. Non-trivial: the input itself violates that.",
             Which::C12 => "Oracle: (i) outputs for tab 1..8 at width 2^20 have equal lines modulo leading spaces and lead(t1)*t2 == lead(t2)*t1; (ii) at the case's width every non-exempt line is indented by a multiple of the unit for units 3,4,5,7,8. Exempt: continuation lines of comments, strings, raw, disabled nodes. Non-trivial: output has >= 2 distinct non-zero indentation levels.",
-            Which::C13 => "Cases add a byte range (empty / whitespace-only / exact node / mid-token / whole / past the end); sources may be erroneous. Oracle: no panic; Ok((r,t)) => r is the exact range of a non-erroneous Markup/Expr/Pattern node covering the trimmed request, splice is well-formed and N-equal to the source; smallest covering node erroneous => Err. Non-trivial: Ok and t differs from the node's text.",
+            Which::C13 => "Cases add a byte range (empty / whitespace-only / exact node / exact inner node / mid-token / whole / past the end; for one case in three the width is narrower than the request, so the selected node has to be broken); sources may be erroneous. The sweep also enumerates EVERY pair of character boundaries (start <= end, plus one end past the text) of every well-formed corpus snippet of at most 40 bytes (thorough: 160) at widths 80 / 12 / 0: exhaustive over that sub-space (label origin:G0s:all-ranges). Oracle: no panic; Ok((r,t)) => r is the exact range of a non-erroneous Markup/Expr/Pattern node covering the trimmed request, splice is well-formed and N-equal to the source; smallest covering node erroneous => Err. Non-trivial: Ok and t differs from the node's text.",
             Which::C19 => "Oracle: off keeps item order; on is a sorted permutation unless the import has a comment or binds a name twice (then order kept); undoing the permutation in the on-output gives the off-output byte for byte. Non-trivial: >= 1 import with >= 2 items that is not already sorted.",
         };
         format!("{common}{specific}")
@@ -259,7 +290,12 @@ impl Prop for SrcProp {
         let (w, t) = self.grid(env.tier);
         let items = self.sweep_items(env).len();
         let reorder = matches!(self.which, Which::C01 | Which::C03) as usize;
-        items * w.len() * t.len() + reorder * self.sweep_items_import(env).len() * w.len() + items * BLANK_SWEEP.len()
+        let base = items * w.len() * t.len() + reorder * self.sweep_items_import(env).len() * w.len() + items * BLANK_SWEEP.len();
+        if self.which == Which::C13 {
+            base + exhaustive_ranges(env).1.last().copied().unwrap_or(0) * EXH_WIDTHS.len()
+        } else {
+            base
+        }
     }
 
     fn sweep_case(&self, i: usize, env: &Env) -> Option<SrcCase> {
@@ -267,6 +303,33 @@ impl Prop for SrcProp {
         let items = self.sweep_items(env);
         let per = w.len() * t.len();
         let main = items.len() * per;
+        if self.which == Which::C13 {
+            let base = main + items.len() * BLANK_SWEEP.len();
+            if i >= base {
+                // exhaustive part: index -> (width, snippet, pair of boundaries)
+                let (snips, prefix) = exhaustive_ranges(env);
+                let j = i - base;
+                let width = EXH_WIDTHS[j % EXH_WIDTHS.len()];
+                let j = j / EXH_WIDTHS.len();
+                let k = prefix.partition_point(|&p| p <= j) - 1;
+                let (item, b) = &snips[k];
+                let mut r = j - prefix[k];
+                // r-th pair (a <= b) in lexicographic order
+                let n = b.len();
+                let mut a = 0;
+                while r >= n - a {
+                    r -= n - a;
+                    a += 1;
+                }
+                let it = &env.corpus.items[*item];
+                return Some(SrcCase {
+                    src: it.text.clone(),
+                    cfg: Cfg { width, tab: 2, reorder: false, blank: 2 },
+                    range: Some((b[a].min(it.text.len()), b[a + r])),
+                    origin: "G0s:all-ranges".into(),
+                });
+            }
+        }
         let reorder_part = if matches!(self.which, Which::C01 | Which::C03) { self.sweep_items_import(env).len() * w.len() } else { 0 };
         let mut blank = 2;
         let (item, width, tab, reorder) = if i < main {
